@@ -226,6 +226,7 @@ package tls
 //@   requires rcAEAD(hc) ==> hc.mac == nil
 //@   requires rcSeqVal(hc) != 0xffffffffffffffff
 //@   at call incSeq assert rcSeqVal(hc) != 0xffffffffffffffff
+//@   ensures  [alert] result2 != nil ==> typeis(result2, Alert)
 //@   ensures  [reject] result2 != nil ==> result0 == nil && rcSeqVal(hc) == old(rcSeqVal(hc))
 //@   ensures  [accept] result2 == nil && !rcCCS13(hc, record) ==> rcSeqVal(hc) == old(rcSeqVal(hc)) + 1
 //@   ensures  [ccs13] rcCCS13(hc, record) ==> result2 == nil && same(result0, record[recordHeaderLen:]) && result1 == recordTypeChangeCipherSpec && rcSeqVal(hc) == old(rcSeqVal(hc))
